@@ -131,6 +131,7 @@ type Run struct {
 	evaluations int64
 	distinct    map[[8]byte]struct{}
 	samples     []any
+	autoSamples []any // first non-trivial case descriptions, used when the monitor registered no sample itself
 	extra       map[string]any
 	counters    map[string]int64
 	sets        map[string]map[string]int64
@@ -205,6 +206,9 @@ func (r *Run) Case(desc string, nontrivial bool) {
 	r.mu.Lock()
 	defer r.mu.Unlock()
 	r.evaluations++
+	if nontrivial && len(r.autoSamples) < 3 {
+		r.autoSamples = append(r.autoSamples, oneLine(desc))
+	}
 	if nontrivial {
 		h := sha256.Sum256([]byte(desc))
 		var k [8]byte
@@ -376,6 +380,12 @@ func (r *Run) Finish() {
 		return
 	}
 	r.finished = true
+	if len(r.samples) == 0 {
+		r.samples = r.autoSamples
+	}
+	if r.samples == nil {
+		r.samples = []any{}
+	}
 	cov := map[string]any{
 		"evaluations":         r.evaluations,
 		"distinct_nontrivial": len(r.distinct),
